@@ -110,4 +110,137 @@ theorem nextReader_violation_reachable (c : Conn) (hc : ReaderIdle c) (hi : Coun
       c'.w.writeErr = some .closeSent := by
   first | exact ReaderMore.nextReader_violation_reach .. | (apply ReaderMore.nextReader_violation_reach <;> assumption)
 
+/-! ### non-vacuity -/
+section NonVacuity
+set_option linter.defProp false
+open WS WS.HdrLogic WS.SrcLaw WS.ReaderRejects WS.Codec WS.ReaderDecodes WS.ReaderLift WS.ReaderMore
+
+/-- a client connection (4096-byte buffers, two masking keys in the key source) whose reader is idle
+    between messages after having handled one pong; pending on the source (partly buffered, partly
+    still in two transport chunks): a final text frame with RSV2 set carrying "abc", then a ping -/
+def witIdle : Conn :=
+  { w := { newW false 4096 false false with keys := [1, 2, 3, 4, 5, 6, 7, 8] },
+    r := { isServer := false, nego := false, hlog := [.pong [7]],
+           buf := { size := 4096, buf := [0xA1, 0x03],
+                    t := { chunks := [[0x61, 0x62], [0x63, 0x89, 0x00]] }, total := 7 } } }
+
+def witIdle_wf : WF witIdle.r.buf := ⟨by decide, by decide, by decide, (by intro e h; cases h)⟩
+def witIdle_atBoundary : AtBoundary witIdle := ⟨rfl, rfl, witIdle_wf, by decide⟩
+def witIdle_readerIdle : ReaderIdle witIdle :=
+  ⟨rfl, rfl, rfl, witIdle_wf, by decide, by decide, (by intro id h; cases h), (by intro id h; cases h)⟩
+def witIdle_healthy : WHealthy witIdle.w := ⟨rfl, rfl⟩
+def witIdle_pending : witIdle.r.buf.pending = 0xA1 :: 0x03 :: [0x61, 0x62, 0x63, 0x89, 0x00] := by decide
+def witIdle_violates : Violates witIdle.r.isServer witIdle.r.nego (!witIdle.r.final) (parseHdr 0xA1 0x03) :=
+  Or.inl (by decide)
+def witIdle_countInv : CountInv witIdle := fun _ => rfl
+
+/-- non-vacuity of `header_violation_rejected` (idle reader): all hypotheses hold for `witIdle`
+    (RSV2 on a text frame), and the theorem applies -/
+example : ∃ msg c', advanceFrame witIdle = (.error (.protocol msg), c') ∧
+      c'.r.hlog = [.pong [7]] ∧ c'.r.buf.pending = [0x61, 0x62, 0x63, 0x89, 0x00] ∧
+      c'.w.wire = witIdle.w.wire ++ closeFrameBytes witIdle.w ((closePayload 1002 (strBytes msg)).take 125) ∧
+      c'.w.writeErr = some .closeSent :=
+  header_violation_rejected witIdle witIdle_atBoundary witIdle_healthy 0xA1 0x03 _ witIdle_pending witIdle_violates
+
+/-- non-vacuity of `nextReader_violation`: `ReaderIdle`, `WHealthy`, the pending bytes and `Violates`
+    hold together for `witIdle` -/
+example : ∃ msg c', nextReader witIdle = (if witIdle.r.errCount + 1 ≥ 1000 then NRRes.panic else .err (.protocol msg), c') ∧
+      c'.r.readErr = some (.protocol msg) ∧
+      c'.r.hlog = witIdle.r.hlog ∧ c'.r.buf.pending = [0x61, 0x62, 0x63, 0x89, 0x00] ∧
+      c'.w.wire = witIdle.w.wire ++ closeFrameBytes witIdle.w ((closePayload 1002 (strBytes msg)).take 125) ∧
+      c'.w.writeErr = some .closeSent :=
+  nextReader_violation witIdle witIdle_readerIdle witIdle_healthy 0xA1 0x03 _ witIdle_pending witIdle_violates
+
+/-- non-vacuity of `nextReader_violation_reachable`: additionally `CountInv witIdle` -/
+example : ∃ msg c', nextReader witIdle = (.err (.protocol msg), c') ∧ c'.r.readErr = some (.protocol msg) ∧
+      c'.r.hlog = witIdle.r.hlog ∧ c'.r.buf.pending = [0x61, 0x62, 0x63, 0x89, 0x00] ∧
+      c'.w.wire = witIdle.w.wire ++ closeFrameBytes witIdle.w ((closePayload 1002 (strBytes msg)).take 125) ∧
+      c'.w.writeErr = some .closeSent :=
+  nextReader_violation_reachable witIdle witIdle_readerIdle witIdle_countInv witIdle_healthy 0xA1 0x03 _
+    witIdle_pending witIdle_violates
+
+/-- the concrete outcome on `witIdle`, evaluated: the error names the violation and the reader's
+    state is as the theorems say -/
+example : (nextReader witIdle).2.r.readErr = some (.protocol "RSV2 set") ∧ (nextReader witIdle).2.r.hlog = [.pong [7]] := by
+  decide
+
+/-- a server connection in the middle of a fragmented binary message (message reader 3 is current,
+    5 payload bytes counted so far, the non-final first frame fully delivered); the peer now starts
+    a NEW masked text frame "hi" where a continuation is due, followed by further bytes -/
+def witMid : Conn :=
+  { w := newW true 4096 false false,
+    r := { isServer := true, nego := false, final := false, length := 5, msgReader := some 3, nextId := 4,
+           maskKey := ⟨9, 9, 9, 9⟩, maskPos := 1,
+           buf := { size := 4096, buf := [0x81, 0x82, 1, 2, 3, 4, 0x69],
+                    t := { chunks := [[0x6B, 0x80, 0x80]], term := .transport 5 }, total := 10 } } }
+
+def witMid_wf : WF witMid.r.buf := ⟨by decide, by decide, by decide, (by intro e h; cases h)⟩
+def witMid_mid : MidMessage witMid 3 := ⟨rfl, rfl, rfl, rfl, witMid_wf, by decide, by decide⟩
+def witMid_pending : witMid.r.buf.pending = 0x81 :: 0x82 :: [1, 2, 3, 4, 0x69, 0x6B, 0x80, 0x80] := by decide
+def witMid_violates : Violates witMid.r.isServer witMid.r.nego true (parseHdr 0x81 0x82) :=
+  Or.inr (Or.inr (Or.inr (Or.inr (Or.inr (Or.inr (Or.inr (Or.inl ⟨Or.inl (by decide), rfl⟩)))))))
+
+/-- non-vacuity of `read_violation_mid_message`: `MidMessage`, `WHealthy`, pending bytes, `Violates`
+    (a new text frame inside an unfinished message) hold together for `witMid`; Read of 512 bytes -/
+example : ∃ msg c', mrRead witMid 3 512 = (([], some (.protocol msg)), c') ∧ c'.r.readErr = some (.protocol msg) ∧
+      c'.r.hlog = witMid.r.hlog ∧
+      c'.w.wire = witMid.w.wire ++ closeFrameBytes witMid.w ((closePayload 1002 (strBytes msg)).take 125) :=
+  read_violation_mid_message witMid 3 witMid_mid ⟨rfl, rfl⟩ 0x81 0x82 _ witMid_pending witMid_violates 512 (by decide)
+
+/-- non-vacuity of `header_violation_rejected` inside a fragmented message (`final = false`) -/
+example : ∃ msg c', advanceFrame witMid = (.error (.protocol msg), c') ∧
+      c'.r.hlog = witMid.r.hlog ∧ c'.r.buf.pending = [1, 2, 3, 4, 0x69, 0x6B, 0x80, 0x80] ∧
+      c'.w.wire = witMid.w.wire ++ closeFrameBytes witMid.w ((closePayload 1002 (strBytes msg)).take 125) ∧
+      c'.w.writeErr = some .closeSent :=
+  header_violation_rejected witMid ⟨rfl, rfl, witMid_wf, by decide⟩ ⟨rfl, rfl⟩ 0x81 0x82 _ witMid_pending
+    (by rw [show witMid.r.final = false from rfl]; exact witMid_violates)
+
+example : (mrRead witMid 3 512).1 = ([], some (.protocol "data before FIN")) := by decide
+
+/-- an idle client reader facing a binary frame whose 64-bit length field has the top bit set
+    (0x8000000000000010), one more byte behind it -/
+def witTop : Conn :=
+  { w := { newW false 4096 false false with keys := [1, 2, 3, 4] },
+    r := { isServer := false, nego := false,
+           buf := { size := 4096, buf := [], t := { chunks := [[0x82, 0x7F, 0x80, 0, 0], [0, 0, 0, 0, 0x10, 0xAA]] }, total := 11 } } }
+
+def witTop_wf : WF witTop.r.buf := ⟨by decide, by decide, by decide, (by intro e h; cases h)⟩
+
+/-- non-vacuity of `topbit_length_rejected`: all eight hypotheses hold for `witTop` -/
+example : ∃ c', advanceFrame witTop = (.error .readLimit, c') ∧ c'.r.hlog = witTop.r.hlog ∧ c'.r.buf.pending = [0xAA] ∧
+      c'.w.wire = witTop.w.wire ++ closeFrameBytes witTop.w (closePayload 1009 []) ∧ c'.w.writeErr = some .closeSent :=
+  topbit_length_rejected witTop ⟨rfl, rfl, witTop_wf, by decide⟩ ⟨rfl, rfl⟩ 0x82 0x7F [0x80, 0, 0, 0, 0, 0, 0, 0x10] [0xAA]
+    (by decide) rfl
+    (by rw [← violates_iff_model_error]; decide) (by decide) (by decide)
+
+/-- a client connection whose reader failed with a protocol error two calls ago (a message reader
+    had been handed out before) and which still has unread bytes buffered -/
+def witFailed (n : Nat) : Conn :=
+  { w := { newW false 4096 false false with writeErr := some .closeSent, wire := [0x88, 0x80, 0, 0, 0, 0] },
+    r := { isServer := false, nego := false, readErr := some (.protocol "RSV2 set"), errCount := n,
+           msgReader := some 0, nextId := 1, hlog := [.ping [1]],
+           buf := { size := 4096, buf := [0x61, 0x62, 0x63], total := 5 } } }
+
+/-- non-vacuity of `nextReader_sticky`: second failed call -/
+example : ∃ c', nextReader (witFailed 1) = (.err (.protocol "RSV2 set"), c') ∧ c'.r.readErr = some (.protocol "RSV2 set") ∧
+      c'.w = (witFailed 1).w ∧ c'.r.hlog = (witFailed 1).r.hlog ∧
+      c'.r.buf = (witFailed 1).r.buf ∧ c'.r.errCount = (witFailed 1).r.errCount + 1 :=
+  nextReader_sticky (witFailed 1) _ rfl (by decide)
+
+/-- non-vacuity of `nextReader_panics_at_1000`: 999 failed calls before this one -/
+example : ∃ c', nextReader (witFailed 999) = (.panic, c') :=
+  nextReader_panics_at_1000 (witFailed 999) (.protocol "RSV2 set") rfl (by decide)
+
+/-- non-vacuity of `mrRead_after_error`: Read(512) on the message reader handed out earlier -/
+example : ((mrRead (witFailed 1) 0 512).1).1 = [] ∧ ((mrRead (witFailed 1) 0 512).1).2.isSome ∧
+    (mrRead (witFailed 1) 0 512).2.w = (witFailed 1).w :=
+  mrRead_after_error (witFailed 1) (.protocol "RSV2 set") rfl 0 512
+
+/-- instances of `violates_iff_model_error` / `closecode_spec` (no hypotheses): a masked ping of
+    126 bytes to a server, and close code 1005 -/
+example : headerErrors true false true (parseHdr 0x89 0xFE) = ["len > 125 for control"] ∧
+    isValidReceivedCloseCode 1005 = false ∧ isValidReceivedCloseCode 3000 = true := by decide
+
+end NonVacuity
+
 end WS.Props.C04
